@@ -166,6 +166,42 @@ class Unroll(ast.NodeTransformer):
 
     visit_AsyncFunctionDef = visit_FunctionDef
 
+    def visit_For(self, n):
+        """`for a, b in ((x1, y1), (x2, y2)): body` over a literal table of rows: the body once per row (statement form of the
+        same idea: `for name, src, dst in (('K23', central, peripheral), ('K32', peripheral, central)): ...`)"""
+        self.generic_visit(n)
+        it = n.iter
+        if n.orelse or not isinstance(it, (ast.Tuple, ast.List)) or not it.elts or len(it.elts) > 6 \
+                or not isinstance(n.target, (ast.Tuple, ast.List)) or not all(isinstance(t, ast.Name) for t in n.target.elts):
+            return n
+
+        def simple(e):
+            return _is_const(e) or isinstance(e, ast.Name) or (isinstance(e, ast.Attribute) and simple(e.value)) or (
+                isinstance(e, ast.Subscript) and simple(e.value) and _is_const(e.slice))
+        if not all(isinstance(r, (ast.Tuple, ast.List)) and len(r.elts) == len(n.target.elts) and all(simple(e) for e in r.elts)
+                   for r in it.elts):
+            return n
+        names = {t.id for t in n.target.elts}
+        nstmts = sum(1 for s_ in n.body for x in ast.walk(s_) if isinstance(x, ast.stmt))
+        if nstmts * len(it.elts) > 40:
+            return n
+        for s_ in n.body:
+            for x in ast.walk(s_):
+                if isinstance(x, (ast.Break, ast.Continue)) or (isinstance(x, ast.Name) and x.id in names
+                                                                 and not isinstance(x.ctx, ast.Load)):
+                    return n
+                if isinstance(x, (ast.FunctionDef, ast.Lambda, ast.AsyncFunctionDef)):
+                    return n
+        # a row element that the body re-binds (model = f(model, ..)) would read the new value in the loop as well: fine, the
+        # substituted name denotes the same variable
+        out = []
+        for r in it.elts:
+            b = {t.id: e for t, e in zip(n.target.elts, r.elts)}
+            for s_ in n.body:
+                out.append(ast.copy_location(_Fold().visit(_Subst(b).visit(copy.deepcopy(s_))), s_))
+        self.count += 1
+        return out
+
     def visit_DictComp(self, n):
         self.generic_visit(n)
         r = self.expand(n, lambda b: (self._inst(n.key, b), self._inst(n.value, b)))
@@ -287,6 +323,7 @@ def unroll(tree):
     stores = {}
     comps = []
     splat = False
+    row_loops = False
     MUT = ('append', 'extend', 'update', 'add', 'pop', 'remove', 'insert', 'clear', 'setdefault')
     for x in ast.walk(tree):
         t = type(x)
@@ -296,6 +333,10 @@ def unroll(tree):
         elif t in (ast.DictComp, ast.ListComp, ast.SetComp, ast.GeneratorExp):
             if len(x.generators) == 1 and not x.generators[0].ifs:
                 comps.append(x)
+        elif t is ast.For:
+            if type(x.iter) in (ast.Tuple, ast.List) and type(x.target) in (ast.Tuple, ast.List) and x.iter.elts \
+                    and all(type(r) in (ast.Tuple, ast.List) for r in x.iter.elts):
+                row_loops = True
         elif t is ast.Subscript or t is ast.Attribute:
             if type(x.ctx) is not ast.Load and type(x.value) is ast.Name:
                 stores[x.value.id] = stores.get(x.value.id, 0) + 2
@@ -310,7 +351,7 @@ def unroll(tree):
                 splat = True
     consts = {k: v for k, v in consts.items() if stores.get(k, 0) == 1}
     u = Unroll(consts)
-    if any(u.entries(c.generators[0].iter) is not None or isinstance(c.generators[0].iter, ast.Name) for c in comps):
+    if row_loops or any(u.entries(c.generators[0].iter) is not None or isinstance(c.generators[0].iter, ast.Name) for c in comps):
         tree = u.visit(tree)
     n_spl = 0
 
